@@ -37,3 +37,7 @@ add("C15", "SEQ", "model_checking", "exhaustive enumeration of a request grammar
 add("C16", "SEQ", "model_checking", "explicit-state BFS over two-repository histories on the implementation (bounded depth) with a filesystem-call log predicate",
     "For ordered pairs of repository names (nested, prefixes of each other, names equal to layout entries) all histories up to the depth bound of pushes, sessions, the session id used through the other name, mounts in both directions and paged referrers links replayed against the other name are explored; in every distinct state the read transcript of every name of the universe is compared with the model, and every filesystem call of every request must stay inside the root and inside the addressed (or mount source) repository's directory, ancestors being touched by stat/mkdir only; a sentinel tree around the root must stay unchanged.",
     TRUSTED, "DESIGN.md section 4 C16")
+
+add("C14", "SEQ", "model_checking", "explicit-state BFS over request histories per pre-existing directory x configuration, with filesystem-call log and snapshot oracles",
+    "For a family of pre-existing directory contents x store flavours x all combinations of the API switches, all histories up to the depth bound of every mutating verb, full reads, collection tick, cache expiry and close+reopen are explored; no mutating filesystem call may be issued under a read-only root, the recursive snapshot of the root equals the initial one in every state, refused requests are 4xx with an unchanged read transcript, and reads equal those of a writable store on a copy.",
+    TRUSTED, "DESIGN.md section 4 C14")
